@@ -427,3 +427,52 @@ class SStr(object):
 
     def __repr__(self):
         return '<str>'
+
+
+def check_deadline(solver, seconds, *assumptions):
+    """solver.check(); the solver's own `timeout` parameter is the (soft) bound.  (Interrupting the context from a timer
+    thread proved unsafe: z3 5.1 hits internal assertion violations.)  Hard bounds use forked_check."""
+    try:
+        return solver.check(*assumptions)
+    except z3.Z3Exception:
+        return z3.unknown
+
+
+def forked_check(solver, seconds):
+    """solver.check() in a forked child that is killed at the deadline: a hard wall-clock bound (z3 honours neither its
+    `timeout` nor an interrupt inside some nonlinear preprocessing).  -> 'sat' | 'unsat' | 'unknown'."""
+    import os
+    import select
+    import signal
+    rd, wr = os.pipe()
+    pid = os.fork()
+    if pid == 0:
+        try:
+            os.close(rd)
+            try:
+                r = solver.check()
+                msg = b's' if r == z3.sat else (b'u' if r == z3.unsat else b'k')
+            except BaseException:
+                msg = b'k'
+            os.write(wr, msg)
+        finally:
+            os._exit(0)
+    os.close(wr)
+    out = 'unknown'
+    try:
+        ready, _, _ = select.select([rd], [], [], seconds)
+        if ready:
+            b = os.read(rd, 1)
+            out = {b's': 'sat', b'u': 'unsat'}.get(b, 'unknown')
+        else:
+            try:
+                os.kill(pid, signal.SIGKILL)
+            except OSError:
+                pass
+    finally:
+        os.close(rd)
+        try:
+            os.waitpid(pid, 0)
+        except OSError:
+            pass
+    return out
